@@ -104,3 +104,122 @@ Section Rate.
 End Rate.
 
 Arguments Build_hsys {N}. Arguments Build_cell {N}. Arguments Build_model {N}.
+
+(* ============================================================================================ *)
+(* soundness of the reduction over R: on the pinned box the negative log-likelihood of the rate model IS the
+   affine-argument function the certificate talks about *)
+Local Open Scope R_scope.
+Definition nllM (M : model RNum) (x : list R) : R :=
+  fold_right (fun nb acc => nllterm (fst nb) (bin_rate RNum x (snd nb)) + acc) 0 (m_bins RNum M)
+  + (fold_right (fun p acc => let '(aux, tau, i) := p in nllterm aux (tau * par RNum x i) + acc) 0 (m_pois RNum M)
+  + fold_right (fun g acc => let '(w, aux, i) := g in w / 2 * ((par RNum x i - aux) * (par RNum x i - aux)) + acc) 0 (m_gaus RNum M)).
+
+Definition agree (mask : list bool) (x0 x : list R) : Prop :=
+  forall i, nth i mask false = true -> par RNum x i = par RNum x0 i.
+
+Lemma split_fac_sound mask x0 x idx : agree mask x0 x ->
+  prod_par RNum x idx = fst (split_fac RNum mask x0 idx) * prod_par RNum x (snd (split_fac RNum mask x0 idx)).
+Proof. intros Ha. induction idx as [|i r IH]; simpl; [ring|].
+  destruct (split_fac RNum mask x0 r) as [k fr] eqn:E. simpl in IH.
+  destruct (nth i mask false) eqn:Em; simpl; rewrite IH.
+  - rewrite (Ha i Em). ring.
+  - ring. Qed.
+
+Lemma dot_unit m : forall i (v : R) (x : list R), length x = m -> (i < m)%nat ->
+  dot RNum (unit_vec RNum m i v) x = v * par RNum x i.
+Proof. induction m as [|m IH]; intros i v x Hl Hi; [lia|].
+  destruct x as [|a x]; [discriminate|]. simpl in Hl. destruct i as [|i]; simpl.
+  - rewrite sadd_R, smul_R. rewrite (dot_zero m x). unfold par. simpl. ring.
+  - rewrite sadd_R, smul_R. rewrite IH by lia. unfold par. simpl. ring. Qed.
+Lemma unit_vec_length m : forall i (v : R), length (unit_vec RNum m i v) = m.
+Proof. induction m; intros [|i] v; simpl; auto. now rewrite repeat_length. Qed.
+
+Lemma affine_cell_sound m mask x0 x c k a : agree mask x0 x -> length x = m ->
+  affine_cell RNum m mask x0 c = Some (k, a) -> cell_rate RNum x c = k + dot RNum a x /\ length a = m.
+Proof. intros Ha Hl. unfold affine_cell, cell_rate. destruct (c_hs RNum c); [|discriminate]. simpl.
+  rewrite (split_fac_sound mask x0 x _ Ha). destruct (split_fac RNum mask x0 (c_fac RNum c)) as [kk fr]. simpl.
+  destruct fr as [|i [|j fr]]; try discriminate.
+  - intros E. injection E as <- <-. simpl. rewrite (dot_zero m x), repeat_length. split; [ring|reflexivity].
+  - destruct (Nat.ltb i m) eqn:Lt; [|discriminate]. apply Nat.ltb_lt in Lt. intros E. injection E as <- <-.
+    rewrite dot_unit by auto. rewrite unit_vec_length. simpl. split; [ring|reflexivity]. Qed.
+
+Lemma affine_bin_sound m mask x0 x : agree mask x0 x -> length x = m -> forall cells k a,
+  affine_bin RNum m mask x0 cells = Some (k, a) -> bin_rate RNum x cells = k + dot RNum a x /\ length a = m.
+Proof. intros Ha Hl. induction cells as [|c r IH]; intros k a E; simpl in E.
+  - injection E as <- <-. simpl. rewrite (dot_zero m x), repeat_length. split; [ring|reflexivity].
+  - destruct (affine_cell RNum m mask x0 c) as [[k1 a1]|] eqn:E1; [|discriminate].
+    destruct (affine_bin RNum m mask x0 r) as [[k2 a2]|] eqn:E2; [|discriminate]. injection E as <- <-.
+    destruct (affine_cell_sound m mask x0 x c k1 a1 Ha Hl E1) as [C1 L1]. destruct (IH k2 a2 eq_refl) as [C2 L2].
+    assert (L12 : length a1 = length a2) by (rewrite L1, L2; reflexivity).
+    split; [|rewrite (vadd_length a1 a2 L12); exact L1]. rewrite (dot_vadd a1 a2 x L12).
+    change (bin_rate RNum x (c :: r)) with (cell_rate RNum x c + bin_rate RNum x r). rewrite C1, C2. simpl. ring. Qed.
+
+Lemma fR_app l1 l2 x : fR (l1 ++ l2) x = fR l1 x + fR l2 x.
+Proof. induction l1; simpl; [ring|]. rewrite IHl1. ring. Qed.
+
+
+Definition idx_ok (m : nat) (M : model RNum) : Prop :=
+  Forall (fun p => (snd p < m)%nat) (m_pois RNum M) /\ Forall (fun g => (snd g < m)%nat) (m_gaus RNum M).
+
+Definition bin_term (m : nat) (mask : list bool) (x0 : list R) (nb : R * list (cell RNum)) : option termR :=
+  match affine_bin RNum m mask x0 (snd nb) with Some (c, a) => Some (@TPois RNum (fst nb) c a) | None => None end.
+Definition pois_term (m : nat) (p : R * R * nat) : termR := let '(aux, tau, i) := p in @TPois RNum aux 0 (unit_vec RNum m i tau).
+Definition gaus_term (m : nat) (g : R * R * nat) : termR := let '(w, aux, i) := g in @TGauss RNum w aux 0 (unit_vec RNum m i 1).
+Lemma affine_terms_unfold m mask x0 M :
+  affine_terms RNum m mask x0 M =
+  match omap (bin_term m mask x0) (m_bins RNum M) with
+  | None => None
+  | Some bins => Some (bins ++ map (pois_term m) (m_pois RNum M) ++ map (gaus_term m) (m_gaus RNum M)) end.
+Proof. reflexivity. Qed.
+
+Lemma bins_sound m mask x0 x : agree mask x0 x -> length x = m -> forall l bl, omap (bin_term m mask x0) l = Some bl ->
+  fold_right (fun nb acc => nllterm (fst nb) (bin_rate RNum x (snd nb)) + acc) 0 l = fR bl x
+  /\ Forall (fun t => length (coefs RNum t) = m) bl.
+Proof. intros Ha Hl. induction l as [|nb l IH]; intros bl Eo.
+  - simpl in Eo. inversion Eo. simpl. split; [reflexivity|constructor].
+  - change (omap (bin_term m mask x0) (nb :: l)) with
+      (match bin_term m mask x0 nb, omap (bin_term m mask x0) l with Some b, Some r' => Some (b :: r') | _, _ => None end) in Eo.
+    destruct (bin_term m mask x0 nb) as [t|] eqn:Ef; [|discriminate Eo].
+    destruct (omap (bin_term m mask x0) l) as [bl'|] eqn:El; [|discriminate Eo].
+    inversion Eo as [Eb']. destruct (IH bl' eq_refl) as [I1 I2]. unfold bin_term in Ef.
+    destruct (affine_bin RNum m mask x0 (snd nb)) as [[c a]|] eqn:Eb; [|discriminate Ef]. inversion Ef as [Et].
+    destruct (affine_bin_sound m mask x0 x Ha Hl (snd nb) c a Eb) as [C L].
+    simpl. rewrite I1, C. unfold nllterm. split; [reflexivity|constructor; auto]. Qed.
+
+Lemma pois_sound m x : length x = m -> forall l, Forall (fun p : R * R * nat => (snd p < m)%nat) l ->
+  fold_right (fun p acc => let '(aux, tau, i) := p in nllterm aux (tau * par RNum x i) + acc) 0 l = fR (map (pois_term m) l) x
+  /\ Forall (fun t => length (coefs RNum t) = m) (map (pois_term m) l).
+Proof. intros Hl l. induction 1 as [|[[aux tau] i] l Hi Hr IH]; simpl; [split; [reflexivity|constructor]|]. simpl in Hi.
+  destruct IH as [I1 I2]. rewrite I1. rewrite (dot_unit m i tau x Hl Hi). unfold nllterm. split.
+  - replace (0 + tau * par RNum x i) with (tau * par RNum x i) by ring. reflexivity.
+  - constructor; auto. simpl. apply unit_vec_length. Qed.
+Lemma gaus_sound m x : length x = m -> forall l, Forall (fun g : R * R * nat => (snd g < m)%nat) l ->
+  fold_right (fun g acc => let '(w, aux, i) := g in w / 2 * ((par RNum x i - aux) * (par RNum x i - aux)) + acc) 0 l = fR (map (gaus_term m) l) x
+  /\ Forall (fun t => length (coefs RNum t) = m) (map (gaus_term m) l).
+Proof. intros Hl l. induction 1 as [|[[w aux] i] l Hi Hr IH]; simpl; [split; [reflexivity|constructor]|]. simpl in Hi.
+  destruct IH as [I1 I2]. rewrite I1. rewrite (dot_unit m i 1 x Hl Hi). split.
+  - change (V RNum) with R in *. ring.
+  - constructor; auto. simpl. apply unit_vec_length. Qed.
+
+Theorem affine_sound m mask x0 M terms x : agree mask x0 x -> length x = m -> idx_ok m M ->
+  affine_terms RNum m mask x0 M = Some terms ->
+  nllM M x = fR terms x /\ Forall (fun t => length (coefs RNum t) = m) terms.
+Proof. intros Ha Hl [Hp Hg]. rewrite affine_terms_unfold.
+  destruct (omap (bin_term m mask x0) (m_bins RNum M)) as [bins|] eqn:E; [|discriminate]. intros T. inversion T as [Et]. clear T Et.
+  unfold nllM. rewrite !fR_app.
+  destruct (bins_sound m mask x0 x Ha Hl _ _ E) as [B1 B2]. destruct (pois_sound m x Hl _ Hp) as [P1 P2].
+  destruct (gaus_sound m x Hl _ Hg) as [G1 G2]. rewrite B1, P1, G1. split; [reflexivity|].
+  apply Forall_app. split; [exact B2|]. apply Forall_app. split; assumption. Qed.
+
+(* the certificate at the level of the rate model: for every theta that keeps the fixed coordinates of `ref` *)
+Theorem kkt_certificate_model m mask ref M terms star w box :
+  idx_ok m M -> affine_terms RNum m mask ref M = Some terms ->
+  length star = m -> length w = m -> agree mask ref star -> agree mask ref w ->
+  Forall (fun t => term_ok t star) terms -> in_box w box -> Forall (fun t => term_ok t w) terms ->
+  forall theta, agree mask ref theta -> in_box theta box -> Forall (fun t => term_ok t theta) terms ->
+  nllM M star - nllM M theta <= gapbound RNum terms star w + eps RNum terms w box.
+Proof. intros Hi Ht Ls Lw As Aw Oks Bw Okw theta At Bt Okt.
+  assert (Lt : length theta = m) by (rewrite (in_box_length _ _ Bt), <- (in_box_length _ _ Bw); exact Lw).
+  destruct (affine_sound m mask ref M terms star As Ls Hi Ht) as [E1 S].
+  destruct (affine_sound m mask ref M terms theta At Lt Hi Ht) as [E2 _].
+  rewrite E1, E2. apply kkt_certificate_gap; auto. now rewrite Lw. Qed.
